@@ -94,7 +94,17 @@ func (l linear) equal(o linear) bool {
 	return true
 }
 
-func valKey(v ssa.Value) string { return fmt.Sprintf("%p", v) }
+// valKey names an SSA value stably (function-qualified register / parameter name): the same value has
+// the same key on every run, and distinct values of one function have distinct keys.
+func valKey(v ssa.Value) string {
+	if v == nil {
+		return "<nil>"
+	}
+	if p := v.Parent(); p != nil {
+		return p.Name() + "." + v.Name()
+	}
+	return v.Name()
+}
 
 // linearOf parses an integer SSA expression into a linear form.
 func linearOf(v ssa.Value, depth int) linear {
@@ -183,6 +193,17 @@ type sinkWrite struct {
 	callee string
 	psot   linear     // what == "sot": the Psot value, in the caller's terms
 	isot   ssa.Value  // what == "sot": the Isot argument
+}
+
+// instrIndexIn: a stable position of an instruction inside its function (block index * 1000 + offset).
+func instrIndexIn(ins ssa.Instruction) int {
+	b := ins.Block()
+	for i, x := range b.Instrs {
+		if x == ins {
+			return b.Index*1000 + i
+		}
+	}
+	return b.Index * 1000
 }
 
 func unwrapIface(v ssa.Value) ssa.Value {
@@ -308,7 +329,7 @@ func sinkWritesOf(fn *ssa.Function, s ssa.Value) (ws []sinkWrite, ordered bool) 
 					if h.body >= 0 {
 						w.size = linConst(4).add(linTerm("len(" + sliceIdentity(cc.Args[h.body]) + ")"))
 					} else {
-						w.size = linConst(4).add(linTerm(fmt.Sprintf("len(payload emitted at %p)", call)))
+						w.size = linConst(4).add(linTerm("len(payload emitted at " + call.Parent().Name() + "#" + fmt.Sprint(instrIndexIn(call)) + ")"))
 					}
 				}
 			}
@@ -625,7 +646,7 @@ func loopTrip(fn *ssa.Function, loops []*natLoop, ins, ref ssa.Instruction) (lin
 		return linear{bad: true}, false
 	}
 	// range loop / counted loop: header (or a body block) tests  i < n  with n = len(x) or invariant
-	for b := range l.Blocks {
+	for _, b := range l.ordered() {
 		cond, ok := ifCond(b).(*ssa.BinOp)
 		if !ok || cond.Op != token.LSS {
 			continue
